@@ -127,7 +127,7 @@ class Run:
             bind = [f for f in fails if f.startswith("bind.")]
             if bind:
                 raise MachineryError("ill-formed trace (stage %s): %s on %s" % (stage, bind, json.dumps(trim_event(ev))[:800]))
-            mine = [f for f in fails if f.startswith(("S" if self.prop == "stages" else self.prop) + ".")]
+            mine = [f for f in fails if f.startswith({"stages": "S", "extras": "X"}.get(self.prop, self.prop) + ".")]
             if mine:
                 self.violations.append((ev, mine, traces[ev["tid"]]))
         self.evaluations += n
